@@ -13,7 +13,7 @@ from common import Cvec, Cx, R, Rmat, Rvec, cfl, fl, flmat, max_rel_err
 
 from common import wiring_pre_build as pre_build  # noqa: E402,F401
 
-LEAN_MODULES = ["PyomaVerif.Props.C17", "PyomaVerif.Props.C17Jac", "PyomaVerif.Props.C17Vec", "PyomaVerif.Mutants.C17", "PyomaVerif.Mutants.C17Vec", "PyomaVerif.Props.WiringRun", "PyomaVerif.Props.C17Table"]
+LEAN_MODULES = ["PyomaVerif.Props.C17", "PyomaVerif.Props.C17Jac", "PyomaVerif.Props.C17Vec", "PyomaVerif.Mutants.C17", "PyomaVerif.Mutants.C17Vec", "PyomaVerif.Props.WiringRun", "PyomaVerif.Props.C17Table", "PyomaVerif.Mutants.C17Table"]
 THEOREMS = [
     # call-site wiring of the class layer, regenerated from /repo on every run (translate_wiring.py)
     "PV.WiringRun.C01_run_realisation",
@@ -95,6 +95,9 @@ THEOREMS = [
     "PV.C17.C17_fncov_of_build_hank_exact",
     "PV.C17.ExTab.ident2_any",
     "PV.C17.ExReal.svExact",
+    "PV.Mutants.C17Table.shifted_column_fails",
+    "PV.Mutants.C17Table.mispaired_eigvec_differs",
+    "PV.Mutants.C17Table.width_division_fails",
 ]
 RULE = (
     "correspondence: build_hank(cov_mm, calc_unc=True) on small-integer / float records (1..3 channels, reference subset, "
